@@ -276,8 +276,8 @@ def check_neutral(p):
             forms = {"str": str(q)}
             try:
                 forms["noarg"] = q.get_sql()
-            except TypeError:
-                pass
+            except TypeError as e:
+                forms["noarg"] = "EXC:TypeError %s" % e  # every statement object renders without an argument (its class's context)
         except Exception as e:
             forms = {"str": "EXC:" + type(e).__name__}
         for name, text in forms.items():
@@ -640,8 +640,8 @@ def check_ddl(case):
         forms = {"str": str(q)}
         try:
             forms["noarg"] = q.get_sql()
-        except TypeError:
-            pass
+        except TypeError as e:
+            forms["noarg"] = "EXC:TypeError %s" % e
     except Exception as e:
         return [(mksig("ddl", cls, "raises", type(e).__name__), repr(e))]
     out = []
